@@ -414,7 +414,22 @@ class _ReloadWatch:
         """One step() on the SUT with the fetch check (called instead of Subject.step)."""
         sub = self.sub
         st = sub.sut.state
+
+        def counters():
+            try:
+                d = st.memory
+                return (st.performance_metrics.cycles, getattr(d, "accesses", 0) - getattr(d, "hits", 0))
+            except Exception:  # noqa: BLE001
+                return None
+
+        try:
+            was_done = bool(sub.sut.is_done())
+        except Exception:  # noqa: BLE001
+            was_done = None
+        c0 = counters()
+        h0 = (self.ref.acc, self.ref.hits)
         out = sub.step("step")
+        c1 = counters()
         im = st.instruction_memory
         try:
             backing = im.instruction_memory.instructions
@@ -426,6 +441,17 @@ class _ReloadWatch:
                 sub.violate("C11", "stale-instruction-fetched-after-reload", address=a, expected=repr(backing.get(a)), got=repr(got))
         if self.log and (im.accesses, im.hits) != (self.ref.acc, self.ref.hits):
             sub.violate("C11", "fetch-accounting-after-reload", expected=[self.ref.acc, self.ref.hits], got=[im.accesses, im.hits])
+        elif out[0] == "ok" and was_done is False and None not in (c0, c1) and not sub.res.violations:
+            # every miss adds the configured penalty to the cycle counter the user sees - also after a reload (the data
+            # side's misses of this step are taken from its own counters, so that only the instruction side is judged)
+            imiss = (self.ref.acc - h0[0]) - (self.ref.hits - h0[1])
+            dpen = sub.settings["dc"]["pen"] if sub.settings["dc"]["enable"] else 0
+            want = 1 + imiss * sub.settings["ic"]["pen"] + (c1[1] - c0[1]) * dpen
+            if c1[0] - c0[0] != want:
+                sub.violate("C11", "penalty-cycles-after-reload", expected=want, got=c1[0] - c0[0], instruction_cache_misses=imiss,
+                            data_cache_misses=c1[1] - c0[1])
+            elif imiss and sub.settings["ic"]["pen"]:
+                sub.res.probes["instruction-cache miss after a reload charged to the cycle counter"] += 1
         del self.log[:]
         return out
 
